@@ -298,7 +298,7 @@ def run(ctx):
                 "universes of spec/FoInferSmall.tla and the field family of spec/FoResolverMC.tla (quick: 3,800 sampled, thorough: all 49,000); (d) all buffers <= 3 (quick) / 4 (thorough) over the "
                 "13 scanner-critical characters plus random longer ones, alone and after a valid prefix; (e) white-box: scanTokenAt at every "
                 "position of every buffer <= 3 / 4 over those characters plus random longer ones, validated against FoLex.tla. One run of the real binary each, "
-                "time-out 20 s. distinct = distinct (arguments, contents); non-trivial = input differs from an unmodified program")
+                "(f) path shapes: sources in sub-directories, names with several dots, a blank, a doubled .fo - the gen file next to the source. time-out 20 s. distinct = distinct (arguments, contents); non-trivial = input differs from an unmodified program")
     r = ctx.tlc("FoDriverMC", "FoDriver_mc.cfg", workers=2, timeout=1800)
     # unbounded: the inductive invariant of the driver machine, for every argument list (TLA+ proof system)
     ctx.extra["tlaps_obligations_proved_FoDriverProof"] = ctx.tlapm("FoDriverProof")
@@ -348,6 +348,14 @@ def run(ctx):
         with open(fo, "w", encoding="latin1" if any(ord(c) > 127 and ord(c) < 256 for c in src) and tag.split(":")[0] in ("binary",) else "utf8", errors="surrogateescape") as f:
             f.write(src)
         runs.append((tag, d, [(fo, False, os.path.join(d, "gen_s%d.go" % k))]))
+    # path shapes: gen_X.go is written NEXT TO X.fo, whatever directory and whatever dots / blanks the name has
+    pd = os.path.join(wd, "paths")
+    os.makedirs(os.path.join(pd, "sub", "deeper"))
+    for pi, rel in enumerate(["sub/x.fo", "sub/deeper/y.fo", "a.b.fo", "my prog.fo", "x.fo.fo", "sub/a.b.c.fo"]):
+        fo = os.path.join(pd, rel)
+        open(fo, "w").write(OK_SRC % (900 + pi, pi))
+        base = os.path.basename(rel)[:-3]
+        runs.append(("paths:" + rel, pd, [(fo, False, os.path.join(os.path.dirname(fo), "gen_" + base + ".go"))]))
     # run everything: one process per run
     script = os.path.join(wd, "_run.sh")
     foi = os.path.join(repo, "pkg", "pkg_all.foi")
